@@ -12,6 +12,9 @@
 // MergeMaps is re-read right after the call (must be unchanged) and again at the end of the
 // program (only set members may have grown: Go shares the member map).
 //
+// Stream "stages" (stages.go): the batches go through the real CloudHandler / TagHandler /
+// MetricAggregator.
+//
 // Stream "cons": the batches go through a real gostatsd.MetricConsolidator from concurrent
 // goroutines (ReceiveMetrics / ReceiveMetricMap) while another goroutine flushes; everything
 // drained is merged with MergeMaps.  Slot assignment and interleaving are up to the scheduler;
@@ -59,7 +62,9 @@ func sortedTags(tags []string) gostatsd.Tags {
 	return t
 }
 
-func (e seedEntry) key() string { return gostatsd.FormatTagsKey(gostatsd.Source(e.Src), sortedTags(e.Tags)) }
+func (e seedEntry) key() string {
+	return gostatsd.FormatTagsKey(gostatsd.Source(e.Src), sortedTags(e.Tags))
+}
 
 // put stores the series into mm, replacing what is there.
 func (e seedEntry) put(mm *gostatsd.MetricMap) {
@@ -130,25 +135,27 @@ func seedMap(es []seedEntry) (*gostatsd.MetricMap, string) {
 }
 
 type op struct {
-	Op   string     `json:"op"` // seed | recv | merge | mergemaps | bmap | bmetrics
-	R    int        `json:"r"`  // register; for bmap / bmetrics: worker index
-	From int        `json:"from,omitempty"`
-	Srcs []int      `json:"srcs,omitempty"`
-	Dp   *mmgen.Dp  `json:"dp,omitempty"`
-	Dps  []mmgen.Dp `json:"dps,omitempty"` // bmap / bmetrics: the batch
-	Jit  int        `json:"jit,omitempty"` // bmap / bmetrics: Gosched calls before delivering
+	Op   string      `json:"op"` // seed | recv | merge | mergemaps | bmap | bmetrics
+	R    int         `json:"r"`  // register; for bmap / bmetrics: worker index
+	From int         `json:"from,omitempty"`
+	Srcs []int       `json:"srcs,omitempty"`
+	Dp   *mmgen.Dp   `json:"dp,omitempty"`
+	Dps  []mmgen.Dp  `json:"dps,omitempty"`  // bmap / bmetrics: the batch
+	Jit  int         `json:"jit,omitempty"`  // bmap / bmetrics: Gosched calls before delivering
+	S    string      `json:"s,omitempty"`    // info (stages stream): the address whose lookup result arrives
 	Seed []seedEntry `json:"seed,omitempty"` // seed: the register becomes this map; bmap: the batch map starts as this map
 }
 
 type input struct {
-	Kind    string `json:"kind,omitempty"` // "" = prog | "cons"
-	NRegs   int    `json:"nregs,omitempty"`
-	Ops     []op   `json:"ops"`
-	Family  int    `json:"family,omitempty"` // programs with the same family id merge the same batches
-	Spots   int    `json:"spots,omitempty"`
-	Workers int    `json:"workers,omitempty"`
-	Flushes int    `json:"flushes,omitempty"` // flushes racing with the receivers (one more follows at the end)
-	Mode    int    `json:"mode,omitempty"`    // 0: MergeMaps over all drained maps; 1: MergeMaps per flush, then Merge of the results
+	Kind    string   `json:"kind,omitempty"` // "" = prog | "cons" | "stages"
+	Pipe    *pipeCfg `json:"pipe,omitempty"` // stages stream (stages.go)
+	NRegs   int      `json:"nregs,omitempty"`
+	Ops     []op     `json:"ops"`
+	Family  int      `json:"family,omitempty"` // programs with the same family id merge the same batches
+	Spots   int      `json:"spots,omitempty"`
+	Workers int      `json:"workers,omitempty"`
+	Flushes int      `json:"flushes,omitempty"` // flushes racing with the receivers (one more follows at the end)
+	Mode    int      `json:"mode,omitempty"`    // 0: MergeMaps over all drained maps; 1: MergeMaps per flush, then Merge of the results
 }
 
 // ---------------------------------------------------------------------------------------
@@ -732,9 +739,17 @@ func main() {
 		r := hlib.NewRand(a.Seed)
 		fam := 1
 		for n := 0; n < a.N; {
-			if r.Chance(1, 6) {
+			switch r.Intn(30) {
+			case 0, 1, 2, 3: // 2/15 consolidator
 				runCons(em, genCons(r))
 				n++
+				continue
+			case 4, 5, 6, 7, 8, 9: // 1/5 real pipeline stages
+				for _, in := range genStages(r, fam) {
+					runStages(em, in, true)
+					n++
+				}
+				fam++
 				continue
 			}
 			for _, in := range genFamily(r, fam) {
@@ -752,6 +767,11 @@ func main() {
 			}
 			if in.Kind == "cons" {
 				runCons(em, in)
+				continue
+			}
+			if in.Kind == "stages" {
+				in.Family = 0
+				runStages(em, in, false)
 				continue
 			}
 			in.Family = 0
